@@ -1,6 +1,11 @@
 import warnings
 
 import numpy as np
+try:
+    from sklearn.utils.validation import validate_data as _validate_data
+except ImportError:  # scikit-learn < 1.6
+    def _validate_data(estimator, *args, **kwargs):
+        return estimator._validate_data(*args, **kwargs)
 
 from abc import ABC
 from numbers import Integral
@@ -188,7 +193,7 @@ class Kauri(ClusterMixin, BaseEstimator, ABC):
 
         # Check that X has the correct shape
         X = check_array(X)
-        X = self._validate_data(X, accept_sparse=True, dtype=np.float64, ensure_min_samples=self.min_samples_leaf)
+        X = _validate_data(self, X, accept_sparse=True, dtype=np.float64, ensure_min_samples=self.min_samples_leaf)
 
         # Create the random state
         random_state = check_random_state(self.random_state)
